@@ -93,6 +93,8 @@ MENU = {
     'inline_comment': ['stmts', 'headers'],
     'indent': ['none', 'deep'],
     'kw_names': ['on'],
+    # ---- predefined CPP macros / OPEN arguments the FP frontend sanitises away before parsing (files need -cpp)
+    'cpp': ['line', 'file_newunit'],
 }
 
 
@@ -138,6 +140,7 @@ class Layout:
         self.stmts = stmts
         self.facts = facts
         self.nlines = text.count('\n')
+        self.cpp = bool(self.devs.get('cpp'))     # needs the C preprocessor to be valid Fortran for gfortran
 
     @property
     def key(self):
@@ -464,12 +467,21 @@ def build(devs, seed=0):
     P.add('decl', f'class({typ}), intent(inout) :: {p}')
     P.add('decl', 'integer, intent(in) :: k')
     P.add('decl', 'integer(c_int) :: k2')
-    if o('kw_string') or o('label') == 'format':
+    if o('kw_string') or o('label') == 'format' or o('cpp') == 'file_newunit':
         P.add('decl', 'character(len=48) :: msg')
+    if o('cpp') == 'file_newunit':
+        P.add('decl', 'integer :: iu')
     if o('internal') == 'module_sub':
         pass
     if o('blank') == 'body':
         P.add('blank', '')
+    if o('cpp') == 'line':
+        P.call(['call ', 'util_log', '(__LINE__)'], 'util_log').nocase = True
+        P.add('assign', 'k2 = __LINE__').nocase = True
+    elif o('cpp') == 'file_newunit':
+        P.add('assign', 'msg = __FILE__').nocase = True
+        P.add('open', "open(newunit=iu, status='scratch')").nocase = True
+        P.add('close', 'close(iu)')
     s = P.add('assign', 'k2 = k')
     if o('inline_comment') == 'stmts':
         s.trail = '! copy'
@@ -762,13 +774,13 @@ def syntax_check(layouts, scratch, chunk=20):
             return [('DEPS', err)]
         counter = [0]
 
-        def compile_(names):
+        def compile_(names, cpp=False):
             counter[0] += 1
             d = f'm{counter[0]}'
             (b.dir / d).mkdir()
             for attempt in (1, 2):
                 rc, _, err = b.run([GFORTRAN, *FFLAGS, '-std=f2008', '-fsyntax-only', '-Werror=line-truncation',
-                                    '-I', 'deps', '-J', d, *names], timeout=300 * attempt)
+                                    '-I', 'deps', '-J', d, *(['-cpp'] if cpp else []), *names], timeout=300 * attempt)
                 if rc != -9:
                     break
                 counter[0] += 1
@@ -783,11 +795,13 @@ def syntax_check(layouts, scratch, chunk=20):
                 n = f'f{c0 + i}.f90'
                 b.write(n, lay.text)
                 names.append(n)
-            ok, err = compile_(names)
+            plain = [n for n, lay in zip(names, group) if not lay.cpp]
+            withcpp = [n for n, lay in zip(names, group) if lay.cpp]
+            ok = all(compile_(ns, cpp)[0] for ns, cpp in ((plain, False), (withcpp, True)) if ns)
             if ok:
                 continue
             for n, lay in zip(names, group):
-                ok1, err1 = compile_([n])
+                ok1, err1 = compile_([n], lay.cpp)
                 if not ok1:
                     bad.append((lay.key, err1[-800:]))
     return bad
